@@ -198,26 +198,39 @@ def via_primed(ex, doc, **kw):
 
 
 def via_reused_options(doc, **kw):
-    """the export obtained with ONE caller-owned ExportOptions object that was first used (with a new Exporter) for a
-    one-spine document and a two-spine document; options describe a selection, not a document, so the text must equal
-    what kernpy.dumps gives with the same options"""
+    """the export obtained with ONE Exporter and ONE caller-owned ExportOptions object that were first used for a
+    one-spine document and a two-spine document of other spine types; options describe a selection, not a document,
+    and an Exporter is a stateless service, so the text must equal what kernpy.dumps gives with the same options"""
     primed_exporter()  # fills _PRIMER_DOCS
     okw = {('kern_type' if k == 'encoding' else k): v for k, v in kw.items()}
     opts = kp.core.generic.Generic.parse_options_to_ExportOptions(**okw)
+    ex = kp.Exporter()
     for d in (_PRIMER_DOCS[2], _PRIMER_DOCS[1]):
         try:
-            kp.Exporter().export_string(d, opts)
+            ex.export_string(d, opts)
         except Exception:  # noqa  (e.g. a spine id that the small document does not have)
             pass
-    return kp.Exporter().export_string(doc, opts)
+    return ex.export_string(doc, opts)
 
 
-def via_dump_file(doc, **kw):
-    """the same export through kernpy.dump (file on disk)"""
+def via_dump_file(doc, expect=None, **kw):
+    """the same export through kernpy.dump (file on disk).  When the expected text is given the file exists
+    beforehand, once with other content of exactly the expected byte length and once with longer content: what dump
+    leaves in the file must not depend on what was there before"""
     import os
     import tempfile
     with tempfile.TemporaryDirectory(prefix='kv_dump_') as d:
         path = os.path.join(d, 'out.krn')
-        kp.dump(doc, path, **kw)
-        with open(path, encoding='utf-8', newline='') as f:
-            return f.read()
+        outs = []
+        fills = [None] if expect is None else ['Z' * len(expect.encode('utf-8')), expect + 'ZZ\tZZ\n']
+        for fill in fills:
+            if fill is not None:
+                with open(path, 'w', encoding='utf-8', newline='') as f:
+                    f.write(fill)
+            kp.dump(doc, path, **kw)
+            with open(path, encoding='utf-8', newline='') as f:
+                outs.append(f.read())
+        if len(outs) == 2 and outs[0] != outs[1]:
+            raise Bad('dump-depends-on-old-file', f'dump({_kwrepr(kw)}) onto an existing file: the result depends on the previous content '
+                                                  f'of the file\n--- over same-length content\n{outs[0]}--- over longer content\n{outs[1]}')
+        return outs[0]
